@@ -141,3 +141,52 @@ func VerifH_ProcChanProgram() {
 	symx.MustFinish(tW, "after Stop the lane goroutine terminates")
 	symx.Reach("end")
 }
+
+// C14/H2 (proc channel, backlog): a gated call keeps the lane busy, a second call queues behind it and
+// its caller's context ends, a third call is issued afterwards; then the gate opens.
+func VerifH_ProcChanBacklog() {
+	p := NewProcChan(WithQSize(2))
+	p.Run()
+	log := &verifRunLog{}
+	gate := make(chan struct{})
+	body := func(id int) (interface{}, error) {
+		symx.YieldOn(log)
+		n := symx.GhostAdd(&log.running, 1)
+		symx.Assert(n == 1, "calls on one lane never overlap in time")
+		log.runs[id]++
+		log.order = append(log.order, id)
+		if id == 0 {
+			<-gate
+		}
+		symx.YieldOn(log)
+		symx.GhostAdd(&log.running, -1)
+		return id * 10, nil
+	}
+	ctxB := verifNewRCtx()
+	var rA, rB, rD interface{}
+	var eA, eB, eD error
+	tA := symx.Go("callerA", func() { rA, eA = p.AsyncProc(verifNewRCtx(), verifProc{0, body}) })
+	symx.WaitQuiescent()
+	tB := symx.Go("callerB", func() { rB, eB = p.AsyncProc(ctxB, verifProc{1, body}) })
+	symx.WaitQuiescent()
+	symx.Assert(symx.Blocked(tA) && symx.Blocked(tB), "the gated call runs, the second waits behind it")
+	ctxB.cancel()
+	symx.WaitQuiescent()
+	symx.MustFinish(tB, "a caller whose context ended returns")
+	symx.Assert(eB == context.Canceled && rB == nil, "with its own context's error")
+	tD := symx.Go("callerD", func() { rD, eD = p.AsyncProc(verifNewRCtx(), verifProc{2, body}) })
+	symx.WaitQuiescent()
+	close(gate)
+	symx.WaitQuiescent()
+	symx.MustFinish(tA, "the first caller gets its result")
+	symx.MustFinish(tD, "the later caller gets its result")
+	symx.Assert(eA == nil && rA.(int) == 0, "caller A receives the result of its own call")
+	symx.Assert(eD == nil && rD.(int) == 20, "caller D receives the result of its own call, not another's")
+	symx.Assert(log.runs[0] == 1 && log.runs[2] == 1 && log.runs[1] <= 1, "every accepted call is executed at most once")
+	if log.runs[1] == 1 {
+		symx.Assert(len(log.order) == 3 && log.order[1] == 1 && log.order[2] == 2, "calls start in the order they were accepted")
+	}
+	p.Stop()
+	symx.WaitQuiescent()
+	symx.Reach("end")
+}
